@@ -144,7 +144,8 @@ def run(ctx):
         for ph in ("repop", "stats", "opt-phase", "relabel"):
             for rnd in ((0, 1) if ph != "repop" else (1, 2)):
                 plans.append({"kind": "phase", "mp": False, "phase": ph, "round": rnd})
-        plans += [{"kind": "no-donor", "mp": False}, {"kind": "wrong-single", "mp": False}, {"kind": "wrong-joint", "mp": False}]
+        plans += [{"kind": "no-donor", "mp": False}, {"kind": "no-donor-late", "mp": False},
+                  {"kind": "wrong-single", "mp": False}, {"kind": "wrong-joint", "mp": False}]
         if not ctx.quick():
             plans += [dict(p, mp=True) for p in plans if p["kind"] == "phase"]
 
@@ -235,6 +236,7 @@ def run(ctx):
                     st.enter_context(pch)
                 try:
                     if plan["kind"] == "no-donor":
+                        expect_exc = ("RuntimeError", "donor")
                         k2 = dict(kw)
                         k2["min_cluster_size"] = 10 ** 6
                         orig_p = cla.predict_cluster_labels
@@ -251,11 +253,34 @@ def run(ctx):
                             warnings.simplefilter("ignore")
                             res = fast_ticc.ticc_labels(series[0], **k2)
                         expect_exc = ("RuntimeError", "donor")
+                    elif plan["kind"] == "no-donor-late":
+                        expect_exc = ("RuntimeError", "donor")
+                        # all points collapse into one cluster; with 3m <= T' < 4m that donor can serve two of the
+                        # three empty clusters, so the THIRD refill of the round must raise the donor-shortage error
+                        k2 = dict(kw)
+                        k2["num_clusters"] = 4
+                        npts = series[0].shape[0] - cfg["W"] + 1
+                        k2["min_cluster_size"] = npts // 3 - 1 if 3 * (npts // 3 - 1) <= npts < 4 * (npts // 3 - 1) else npts // 4 + 1
+                        k2["iteration_limit"] = 3
+                        orig_p = cla.predict_cluster_labels
+
+                        def collapse(model, data, _o=orig_p):
+                            out = _o(model, data)
+                            out.point_labels = [2] * len(out.point_labels)
+                            return out
+                        st.enter_context(tu.patched(cla, "predict_cluster_labels", collapse))
+                        tu.seed_all(cfg["seed"])
+                        with tu.quiet(), warnings.catch_warnings():
+                            warnings.simplefilter("ignore")
+                            res = fast_ticc.ticc_labels(series[0], **k2)
+                        expect_exc = ("RuntimeError", "donor")
                     elif plan["kind"] == "wrong-single":
+                        expect_exc = ("TypeError", "ticc_joint_labels")
                         with tu.quiet():
                             res = fast_ticc.ticc_labels([series[0], series[0]], **kw)
                         expect_exc = ("TypeError", "ticc_joint_labels")
                     elif plan["kind"] == "wrong-joint":
+                        expect_exc = ("TypeError", "ticc_labels")
                         with tu.quiet():
                             res = fast_ticc.ticc_joint_labels(series[0], **kw)
                         expect_exc = ("TypeError", "ticc_labels")
